@@ -1,6 +1,6 @@
 (* C05 model runner: one case per line on stdin, one result per line on stdout.
    Common tokens
-     <script>  comma separated  D<hex> | Z | F   ("-" = empty script)
+     <script>  comma separated  D<hex> | Z | F | E   ("-" = empty script)
      <hashes>  comma separated  <alghex>:<len>:<fnv>:<djb>:<hexdigest>  ("-" = none): the
                SHA-2 values of the byte strings the model may ask for (ground truth
                of the harness; SHA-2 itself is not modelled)
@@ -28,7 +28,7 @@ let res_name e = match e with None -> "OK" | Some e -> err_name e
 let parse_script (s : string) : ev list =
   if s = "-" then [] else
   List.map (fun t ->
-    if t = "Z" then Zero else if t = "F" then Fail
+    if t = "Z" then Zero else if t = "F" then Fail else if t = "E" then Eof
     else if String.length t >= 1 && t.[0] = 'D' then
       Data (str_of_hex (let r = String.sub t 1 (String.length t - 1) in if r = "" then "-" else r))
     else failwith ("bad script token " ^ t)) (String.split_on_char ',' s)
